@@ -106,7 +106,13 @@ void scen_1d(hx::Desc& d, int part) {
     int rounds = part == 3 ? 2 : 1;
     static const int ptsv[] = {0, 1, 4, 15, 40};
     int pts = sim::draw_of(ptsv, "points");
+    // which chunks are slow decides who steals from whom (drives the adaptive depth / demand logic):
+    // 0 all chunks alike, 1 only the thread that called parallel_for is slow ("slow victim, hungry thieves"),
+    // 2 pseudo-random per chunk
+    int delay_mode = (int)sim::draw(3, "delay_mode");
+    int caller = sim::self();
     d.add(hx::fmt("parallel_for 1d [%llu,%llu) grain=%llu %s%s", (unsigned long long)rc.lo, (unsigned long long)rc.hi, (unsigned long long)g, kPart[part], huge ? " (huge: chunk accounting only)" : ""));
+    d.add(hx::fmt("points=%d delay_mode=%d", pts, delay_mode));
     d.publish();
     std::vector<uint8_t> visits(huge ? 0 : (size_t)n, 0);
     tbb::affinity_partitioner ap;
@@ -120,7 +126,10 @@ void scen_1d(hx::Desc& d, int part) {
                 SIM_CHECK(i >= rc.lo && i < rc.hi, "oracle:chunk-out-of-bounds", "index %llu outside the iteration space", (unsigned long long)i);
                 visits[(size_t)(i - rc.lo)]++;
             }
-            for (int k = 0; k < pts; ++k) sim::upoint();
+            int mypts = pts;
+            if (delay_mode == 1) mypts = sim::self() == caller ? pts * 3 : 0;
+            else if (delay_mode == 2) mypts = (int)(((t.begin() * 0x9e3779b97f4a7c15ull) >> 40) % (uint64_t)(pts + 1));
+            for (int k = 0; k < mypts; ++k) sim::upoint();
             --rc.live_bodies;
         };
         run_pfor(TRange(rc.lo, rc.hi, g), body, part, ap);
